@@ -7,15 +7,23 @@ Definition key_of (keys : list N) (p : peer) : N := nth (N.to_nat p) keys 0%N.
 
 Inductive case :=
 (* the first Run of the first attempt returns an injected error; [e] is the value handleError sees;
-   [tm] = the configured CoordinatorTimeout / TssTimeout in ms; [msgs2] carry the time (ms after the
-   wait began) before which the runner does not deliver them *)
-| Fail (keys : list N) (tm : timing) (holders : list peer) (t : Z) (self : peer) (pk : proc_kind) (impl_retryable : bool)
-       (ready1 start1 : list peer) (e : err)
+   [tm] = the configured CoordinatorTimeout / TssTimeout in ms; [m] = size of the peer table;
+   [unreach]: from the failure on every Broadcast that addresses one of these peers returns a
+   CommunicationError; [msgs2] carry the time (ms after the wait began) before which the runner does
+   not deliver them *)
+| Fail (keys : list N) (tm : timing) (m : nat) (holders : list peer) (t : Z) (self : peer) (pk : proc_kind) (impl_retryable : bool)
+       (ready1 start1 : list peer) (e : err) (unreach : list peer)
        (winner : option peer) (ready2 : list peer) (msgs2 : list (N * wmsg)) (impl : obs)
-(* the coordinator of the first attempt never speaks: the failure is the implementation's own
-   CoordinatorError after CoordinatorTimeout *)
-| Silent (keys : list N) (tm : timing) (holders : list peer) (t : Z) (self : peer) (pk : proc_kind) (impl_retryable : bool)
-         (winner : option peer) (ready2 : list peer) (msgs2 : list (N * wmsg)) (impl : obs).
+(* the coordinator of the first attempt sends no start message: the failure is the implementation's own
+   CoordinatorError after CoordinatorTimeout; [msgs1] = what arrives meanwhile (forged traffic of other
+   peers, the coordinator's initiate messages), with arrival times *)
+| Silent (keys : list N) (tm : timing) (m : nat) (holders : list peer) (t : Z) (self : peer) (pk : proc_kind) (impl_retryable : bool)
+         (msgs1 : list (N * wmsg)) (unreach : list peer)
+         (winner : option peer) (ready2 : list peer) (msgs2 : list (N * wmsg)) (impl : obs)
+(* two real relayers over one network: [a] coordinates (ready stream [ready1]), [c] is another key
+   holder; [msgs2] are offered to [c] after it was left out *)
+| Duo (keys : list N) (tm : timing) (m : nat) (holders : list peer) (t : Z) (a c : peer)
+      (ready1 : list peer) (msgs2 : list (N * wmsg)) (impl_a impl_c : obs).
 
 Definition run_eqb (a b : bool * list peer) : bool := Bool.eqb (fst a) (fst b) && list_peer_eqb (snd a) (snd b).
 Fixpoint runs_eqb (a b : list (bool * list peer)) : bool :=
@@ -30,38 +38,52 @@ Fixpoint calls_eqb (a b : list (list peer * list peer)) : bool :=
   | x :: a', y :: b' => list_peer_eqb (fst x) (fst y) && list_peer_eqb (snd x) (snd y) && calls_eqb a' b'
   | _, _ => false
   end.
+Fixpoint lists_eqb (a b : list (list peer)) : bool :=
+  match a, b with
+  | [], [] => true
+  | x :: a', y :: b' => list_peer_eqb x y && lists_eqb a' b'
+  | _, _ => false
+  end.
 
+(* addressee lists are compared as the runner canonicalises them: sorted by peer number *)
 Definition obs_eqb (a b : obs) : bool :=
   runs_eqb (o_runs a) (o_runs b) && opt_list_eqb (o_elected a) (o_elected b)
   && calls_eqb (o_calls2 a) (o_calls2 b) && list_peer_eqb (o_ready2 a) (o_ready2 b)
-  && N.eqb (o_final a) (o_final b).
+  && N.eqb (o_final a) (o_final b)
+  && lists_eqb (o_inits2 a) (o_inits2 b) && calls_eqb (o_starts a) (o_starts b).
 
 Definition model (c : case) : obs :=
   match c with
-  | Fail keys tm holders t self pk _ ready1 start1 e winner ready2 msgs2 _ =>
-      session (key_of keys) tm classify holders t self (retryable_of pk) ready1 start1 e winner ready2 msgs2
-  | Silent keys tm holders t self pk _ winner ready2 msgs2 _ =>
-      session_silent (key_of keys) tm classify holders t self (retryable_of pk) winner ready2 msgs2
+  | Fail keys tm m holders t self pk _ ready1 start1 e _ winner ready2 msgs2 _ =>
+      session (key_of keys) tm m classify holders t self (retryable_of pk) ready1 start1 e winner ready2 msgs2
+  | Silent keys tm m holders t self pk _ msgs1 _ winner ready2 msgs2 _ =>
+      session_silent (key_of keys) tm m classify holders t self (retryable_of pk) msgs1 winner ready2 msgs2
+  | Duo keys tm m holders t a c ready1 msgs2 _ _ =>
+      duo_c (key_of keys) tm m classify holders t a c ready1 msgs2
   end.
 
 Definition agree (c : case) : bool :=
   match c with
-  | Fail _ _ _ _ _ pk r _ _ _ _ _ _ impl => Bool.eqb (retryable_of pk) r && obs_eqb (model c) impl
-  | Silent _ _ _ _ _ pk r _ _ _ impl => Bool.eqb (retryable_of pk) r && obs_eqb (model c) impl
+  | Fail _ _ _ _ _ _ pk r _ _ _ _ _ _ _ impl => Bool.eqb (retryable_of pk) r && obs_eqb (model c) impl
+  | Silent _ _ _ _ _ _ pk r _ _ _ _ _ impl => Bool.eqb (retryable_of pk) r && obs_eqb (model c) impl
+  | Duo keys _ m holders t a _ ready1 _ impl_a impl_c =>
+      obs_eqb (duo_a (key_of keys) m holders t a ready1) impl_a && obs_eqb (model c) impl_c
   end.
 
 Definition judge (c : case) : bool :=
   match c with
-  | Fail keys tm holders t self pk _ ready1 start1 e winner ready2 msgs2 impl =>
+  | Fail keys tm m holders t self pk _ ready1 start1 e unreach winner ready2 msgs2 impl =>
       match o_runs impl with
       | [] => true                      (* the first attempt never ran: nothing failed *)
-      | _ :: _ => spec_ok tm msgs2 holders (retryable_of pk) e 1 impl
+      | _ :: _ => spec_ok (mkEnv tm holders t self unreach ready2 msgs2) (retryable_of pk) e 1 impl
       end
-  | Silent keys tm holders t self pk _ winner ready2 msgs2 impl =>
-      match silent_error (key_of keys) holders with
-      | Some e => spec_ok tm msgs2 holders (retryable_of pk) e 0 impl
+  | Silent keys tm m holders t self pk _ msgs1 unreach winner ready2 msgs2 impl =>
+      match coordinator (key_of keys) holders with
+      | Some c => silent_ok (mkEnv tm holders t self unreach ready2 msgs2) (retryable_of pk) c msgs1 impl
       | None => true
       end
+  | Duo keys tm m holders t a c ready1 msgs2 impl_a impl_c =>
+      duo_ok (mkEnv tm holders t c [] [] msgs2) a impl_a impl_c
   end.
 
 Definition outcome_tag (o : outcome) : N :=
@@ -69,7 +91,7 @@ Definition outcome_tag (o : outcome) : N :=
 
 Definition tag (c : case) : N :=
   match c with
-  | Fail keys tm holders t self pk _ ready1 start1 e winner ready2 msgs2 _ =>
+  | Fail keys tm m holders t self pk _ ready1 start1 e unreach winner ready2 msgs2 _ =>
       (outcome_tag (after_failure (retryable_of pk) holders e)
        + (if opt_peer_eqb (coordinator (key_of keys) holders) self then 0 else 4)
        + (match winner with None => 0 | Some _ => 8 end)
@@ -81,12 +103,25 @@ Definition tag (c : case) : N :=
                                                | _ => false end) msgs2 then 32 else 0)
               + (if snd (left_out_wait tm msgs2) then 64 else 0)
           | _ => 0
-          end))%N
-  | Silent keys tm holders t self pk _ _ _ _ _ =>
+          end)
+       (* 128 = some peers cannot be reached from the failure on *)
+       + (match unreach with [] => 0 | _ => 128 end))%N
+  | Silent keys tm m holders t self pk _ msgs1 unreach _ _ _ _ =>
       match silent_error (key_of keys) holders with
-      | Some e => (16 + outcome_tag (after_failure (retryable_of pk) holders e))%N
+      | Some e => (16 + outcome_tag (after_failure (retryable_of pk) holders e)
+                   (* 256 = traffic during the first attempt, 512 = unresponsive in the specification's sense *)
+                   + (match msgs1 with [] => 0 | _ => 256 end)
+                   + (match coordinator (key_of keys) holders with
+                      | Some c => if coordinator_unresponsive tm c msgs1 then 512 else 0
+                      | None => 0 end)
+                   + (match unreach with [] => 0 | _ => 128 end))%N
       | None => 31%N
       end
+  | Duo keys tm m holders t a c ready1 msgs2 _ _ =>
+      (1024 + match duo_subset (key_of keys) holders t a ready1 with
+              | Some sub => if memb c sub then 1 else 2
+              | None => 0
+              end)%N
   end.
 
 Definition check_all := check_cases agree judge tag.
